@@ -26,7 +26,7 @@ impl HistoryCfg {
             events,
             with_csd: h % 2 == 0,
             restarts: h % 3 != 0,
-            jumps: h % 5 == 3,
+            jumps: h % 4 == 3,
             sparse_regs: h % 3 == 1,
         }
     }
@@ -154,7 +154,8 @@ impl Gen {
                     self.w.tick().await;
                 }
             }
-            55..=66 => self.random_signature(rng).await,
+            55..=61 => self.random_signature(rng).await,
+            62..=66 => self.early_burst(rng).await,
             67..=72 => {
                 let all = !self.cfg.sparse_regs && rng.chance(2, 3);
                 self.register_some(rng, all).await;
@@ -232,6 +233,35 @@ impl Gen {
                     self.w.tick().await;
                 }
             }
+        }
+    }
+
+    /// authenticated signatures for an entity of the current time point that has no open message yet:
+    /// a mix of valid ones and one that signs another message, so that the hand-over at open-message
+    /// creation meets both (registered + removed / skipped + kept)
+    async fn early_burst(&mut self, rng: &mut Rng) {
+        let tp = self.w.time_point().await;
+        let avail = self.w.avail(&tp);
+        let d = self.w.last_dump.clone();
+        let Some(ent) = avail.iter().copied().find(|e| !d.oms.iter().any(|o| o.ent == *e)) else {
+            self.random_signature(rng).await;
+            return;
+        };
+        let ep = self.w.entities[ent].get_epoch_when_signed_entity_type_is_signed().0;
+        let mut regs = self.w.regs.get(&(ep - 1)).cloned().unwrap_or_default();
+        rng.shuffle(&mut regs);
+        let other: Vec<usize> = d.oms.iter().map(|o| o.ent).collect();
+        let mut done = false;
+        for (i, p) in regs.into_iter().take(3).enumerate() {
+            let msg_ent = if i == 1 && !other.is_empty() { *rng.pick(&other) } else { ent };
+            if self.sign_and_submit(ent, p, ep - 1, true, msg_ent).await.is_some() {
+                done = true;
+            }
+        }
+        if done {
+            self.w.tags.insert("early-burst".into());
+        } else {
+            self.w.tick().await;
         }
     }
 
